@@ -21,7 +21,7 @@ RULE = ("case = generated enum (gapless / with holes, every repr) x generated le
         "every mode on 9 fixed shapes with the same ascriptions. Oracle: compiles. non-trivial = configuration not among the pinned suite's; distinct by "
         "(configuration, shape, repr)")
 
-PROFILE = S.profile(renames=0.1, dups=0.0, attrs=0.1, sizes=[("small", 90), ("medium", 5), ("full8", 5)])
+PROFILE = S.profile(renames=0.1, dups=0.0, attrs=0.1, sizes=[("small", 80), ("medium", 12), ("large", 3), ("full8", 5)])
 
 
 @st.composite
